@@ -9,5 +9,7 @@ CONSTANTS
   Cap = 2
   Buffered = TRUE
   Gaps = "overlap"
+  KeepData = TRUE
+  ExternalProg <- NoExternal
   Emit = FALSE
 INVARIANTS TypeOK Isolation Transparency Available NoCrcRace
